@@ -307,6 +307,7 @@ FUNCTION_INDEX = {}     # name -> [(rel, FunctionDef)]  (set by the check driver
 
 IMPORTED_NAMES = {}     # name bound by an import statement anywhere in the package -> dotted origin
 MODULE_CONSTANTS = {}   # name -> [(rel, value expression)] for module-level ``NAME = <expr>``
+CLASS_CONSTANTS = {}    # (class name, attribute) -> value expression for ``NAME = <expr>`` in a class body
 _CONST_VALUES = {}
 
 
@@ -325,9 +326,16 @@ def set_function_index(repo):
     FUNCTION_INDEX.clear()
     IMPORTED_NAMES.clear()
     MODULE_CONSTANTS.clear()
+    CLASS_CONSTANTS.clear()
     _CONST_VALUES.clear()
     for rel, tree in repo.modules.items():
         for node in tree.body:
+            if isinstance(node, ast.ClassDef):
+                for sub in node.body:
+                    if isinstance(sub, ast.Assign) and len(sub.targets) == 1 and isinstance(sub.targets[0], ast.Name):
+                        CLASS_CONSTANTS[(node.name, sub.targets[0].id)] = sub.value
+                    elif isinstance(sub, ast.AnnAssign) and isinstance(sub.target, ast.Name) and sub.value is not None:
+                        CLASS_CONSTANTS[(node.name, sub.target.id)] = sub.value
             if isinstance(node, ast.FunctionDef):
                 FUNCTION_INDEX.setdefault(node.name, []).append((rel, node))
             elif isinstance(node, ast.Assign) and len(node.targets) == 1 and isinstance(node.targets[0], ast.Name):
@@ -379,6 +387,37 @@ class OperatorV:
 
     def __repr__(self):
         return "operator.%s" % self.name
+
+
+class ClosingV:
+    def __init__(self, obj):
+        self.obj = obj
+
+
+class NullCtxV:
+    def __init__(self, obj):
+        self.obj = obj
+
+
+class SliceObjV:
+    """slice(lo, hi[, step]) with constant bounds"""
+    hashable_value = True
+
+    def __init__(self, lo, hi, step=None):
+        self.lo, self.hi, self.step = lo, hi, step
+
+    def __repr__(self):
+        return "slice(%r, %r, %r)" % (self.lo, self.hi, self.step)
+
+
+class AttrGetterV:
+    """operator.attrgetter(name, ...)"""
+
+    def __init__(self, names):
+        self.names = list(names)
+
+    def __repr__(self):
+        return "attrgetter%r" % (tuple(self.names),)
 
 
 class ItemGetterV:
@@ -623,6 +662,26 @@ class Interp:
                 if not (r.exc in names or "Exception" in names or "BaseException" in names or
                         (r.exc in EXC_PARENTS and EXC_PARENTS[r.exc] & names)):
                     raise
+        elif isinstance(st, ast.With) and any(isinstance(self._peek_ctx(i.context_expr, env), (ClosingV, NullCtxV)) for i in st.items):
+            # contextlib.closing(x): x.close() on every way out; contextlib.nullcontext(x): nothing
+            managers = []
+            for item in st.items:
+                v = self._peek_ctx(item.context_expr, env)
+                if not isinstance(v, (ClosingV, NullCtxV)):
+                    raise Unsupported(st, "mixed context managers")
+                managers.append(v)
+                if item.optional_vars is not None:
+                    self.assign(item.optional_vars, v.obj, env)
+            try:
+                self.exec_block(st.body, env)
+            finally:
+                for v in reversed(managers):
+                    if isinstance(v, ClosingV):
+                        m = self.load_attr(v.obj, "close", st)
+                        if isinstance(m, BoundMethod):
+                            self.call_method(m, [], {}, st)
+                        else:
+                            self.w.call(self, m, [], {}, st)
         elif isinstance(st, ast.With):
             opened = []
             for item in st.items:
@@ -820,7 +879,7 @@ class Interp:
         if isinstance(e, ast.Name):
             if e.id in env:
                 return env[e.id]
-            if e.id in ("list", "dict", "tuple", "set", "int", "str", "frozenset", "float", "bool", "bytes", "object"):
+            if e.id in ("list", "dict", "tuple", "set", "int", "str", "frozenset", "float", "bool", "bytes", "object", "slice"):
                 return TypeV(e.id)
             if e.id in BUILTINS:
                 return Builtin(e.id)
@@ -846,6 +905,10 @@ class Interp:
             if isinstance(e.slice, ast.Slice):
                 return self.load_slice(obj, e.slice, env, e)
             key = self.eval(e.slice, env)
+            if isinstance(key, SliceObjV):
+                # x[slice(a, b)] is x[a:b]
+                c = lambda v: None if v is None else ast.copy_location(ast.Constant(value=v), e)
+                return self.load_slice(obj, ast.copy_location(ast.Slice(lower=c(key.lo), upper=c(key.hi), step=c(key.step)), e), env, e)
             return self.load_subscript(obj, key, e)
         if isinstance(e, ast.List):
             return ListObj([self.eval(x, env) for x in e.elts])
@@ -923,7 +986,20 @@ class Interp:
                 c = self.w.concretise_iter(self, v, e)
                 seq = list(c.items) if isinstance(c, (ListObj, TupleV)) else None
             if seq is None:
-                raise Unsupported(e, "yield from %r" % (v,))
+                # ``yield from X`` is ``for x in X: yield x``: run it as that loop, so that whatever the world knows about looping
+                # over X (a range of instants, the interactions of a graph ...) applies
+                it_name, el_name = "__yield_from_iter_%d" % id(e), "__yield_from_item_%d" % id(e)
+                env[it_name] = v
+                loop = ast.For(target=ast.Name(id=el_name, ctx=ast.Store()), iter=ast.Name(id=it_name, ctx=ast.Load()),
+                               body=[ast.Expr(value=ast.Yield(value=ast.Name(id=el_name, ctx=ast.Load())))], orelse=[], type_comment=None)
+                ast.copy_location(loop, e)
+                ast.fix_missing_locations(loop)
+                try:
+                    self.exec_for(loop, env)
+                finally:
+                    env.pop(it_name, None)
+                    env.pop(el_name, None)
+                return NONE
             for x in seq:
                 if self.yield_stack:
                     self.yield_stack[-1].append(x)
@@ -1040,6 +1116,16 @@ class Interp:
                 return Const(a.v ** b.v)
             except ZeroDivisionError:
                 raise AbstractRaise("ZeroDivisionError", node)
+        if isinstance(a, FrozenV) and isinstance(b, FrozenV) and isinstance(op, (ast.BitOr, ast.BitAnd, ast.Sub, ast.BitXor)):
+            ia, ib = list(a.items), list(b.items)
+            has = lambda seq, x: any(self.generic_eq(x, y, node) for y in seq)
+            if isinstance(op, ast.BitOr):
+                return FrozenV(ia + [x for x in ib if not has(ia, x)])
+            if isinstance(op, ast.BitAnd):
+                return FrozenV([x for x in ia if has(ib, x)])
+            if isinstance(op, ast.Sub):
+                return FrozenV([x for x in ia if not has(ib, x)])
+            return FrozenV([x for x in ia if not has(ib, x)] + [x for x in ib if not has(ia, x)])
         if isinstance(a, SetObj) and isinstance(b, SetObj):
             if isinstance(op, ast.BitOr):
                 return SetObj(a.items + b.items)
@@ -1171,6 +1257,8 @@ class Interp:
         raise Unsupported(node, "dict key %r" % (k,))
 
     def list_index(self, obj, key, node):
+        if isinstance(key, Const) and isinstance(key.v, bool):
+            key = Const(int(key.v))
         if isinstance(key, Const) and isinstance(key.v, int):
             i = key.v
             n = len(obj.items)
@@ -1186,6 +1274,8 @@ class Interp:
                 return r
             return obj.items[self.list_index(obj, key, node)]
         if isinstance(obj, TupleV):
+            if isinstance(key, Const) and isinstance(key.v, bool):
+                key = Const(int(key.v))             # a bool is an int: (a, b)[flag]
             if isinstance(key, Const) and isinstance(key.v, int) and not isinstance(key.v, bool):
                 if -len(obj.items) <= key.v < len(obj.items):
                     return obj.items[key.v]
@@ -1268,6 +1358,17 @@ class Interp:
         return ListObj(out)
 
     def load_attr(self, obj, attr, node):
+        if isinstance(obj, SelfV):
+            # an immutable constant of the class body (a tuple of names, a message, a table of operator functions) read through self
+            cname = getattr(self.w, "cls", None) or (getattr(self.w, "cfg", None) or {}).get("cls")
+            ve = CLASS_CONSTANTS.get((cname, attr))
+            if ve is not None and not (hasattr(self.w, "aux_attrs") and attr in self.w.aux_attrs):
+                try:
+                    val = self.eval(ve, {})
+                except (Unsupported, AbstractRaise, Fork):
+                    val = None
+                if isinstance(val, (Const, TupleV, FrozenV, SentinelV, ItemGetterV, AttrGetterV, OperatorV, SliceObjV)):
+                    return val
         if isinstance(obj, TypeV) and obj.name == "dict" and attr == "fromkeys":
             return Builtin("dict.fromkeys")
         if isinstance(obj, Builtin) and obj.name == "chain" and attr == "from_iterable":
@@ -1328,6 +1429,12 @@ class Interp:
                     return FrozenV(seq)
             if f.name == "str" and len(args) == 1 and isinstance(args[0], Const) and not kwargs and isinstance(args[0].v, (str, int, float, bool, type(None))):
                 return Const(str(args[0].v))
+            if f.name == "slice" and 1 <= len(args) <= 3 and not kwargs and all(
+                    isinstance(a, Const) and (a.v is None or (isinstance(a.v, int) and not isinstance(a.v, bool))) for a in args):
+                vals = [a.v for a in args]
+                return SliceObjV(*([None, vals[0]] if len(vals) == 1 else vals))
+            if f.name == "bool" and len(args) == 1 and not kwargs and not isinstance(args[0], Const):
+                return Const(bool(self.truth(args[0], e)))
             if f.name in ("float", "bool") and len(args) == 1 and isinstance(args[0], Const):
                 try:
                     return Const({"float": float, "bool": bool}[f.name](args[0].v))
@@ -1367,9 +1474,7 @@ class Interp:
         if isinstance(f, PartialV):
             kw = dict(f.kwargs)
             kw.update(kwargs)
-            if kw:
-                raise Unsupported(e, "partial with keyword arguments")
-            return self.apply_value(f.f, f.args + list(args), e)
+            return self.apply_value(f.f, f.args + list(args), e, kwargs=kw)
         if isinstance(f, Opaque) and f.tag.endswith(".pairwise") and len(args) == 1 and set(kwargs) <= {"cyclic"}:
             q = self._seq(args[0], e)
             if q is not None:
@@ -1399,8 +1504,13 @@ class Interp:
         if isinstance(f, Opaque) and f.tag == "module:collections.OrderedDict" and not args and not kwargs:
             return DictObj()
         if isinstance(f, Opaque) and f.tag == "module:operator.itemgetter" and args and not kwargs and all(
-                isinstance(a, Const) and isinstance(a.v, int) for a in args):
+                isinstance(a, Const) and isinstance(a.v, (int, str)) for a in args):
             return ItemGetterV([a.v for a in args])
+        if isinstance(f, Opaque) and f.tag == "module:operator.attrgetter" and args and not kwargs and all(
+                isinstance(a, Const) and isinstance(a.v, str) and "." not in a.v for a in args):
+            return AttrGetterV([a.v for a in args])
+        if isinstance(f, AttrGetterV) and len(args) == 1 and not kwargs:
+            return self.apply_value(f, args, e)
         if isinstance(f, ItemGetterV) and len(args) == 1 and not kwargs:
             return self.apply_value(f, args, e)
         if isinstance(f, Opaque) and f.tag.startswith("module:operator.") and f.tag[16:] in (set(OperatorV.BIN) | set(OperatorV.CMP)) and len(args) == 2 \
@@ -1529,6 +1639,10 @@ class Interp:
                 else:
                     return None
             return IterV(list(_it.islice(seqs[0], *nums)))
+        if fname == "tee" and 1 <= len(args) <= 2 and seqs[0] is not None:
+            n = args[1].v if len(args) == 2 and isinstance(args[1], Const) and isinstance(args[1].v, int) else (2 if len(args) == 1 else None)
+            if n is not None:
+                return TupleV([IterV(list(seqs[0])) for _ in range(n)])
         if fname == "pairwise" and len(args) == 1 and seqs[0] is not None:
             return IterV([TupleV([a, b]) for a, b in zip(seqs[0], seqs[0][1:])])
         if fname == "zip_longest" and all(q is not None for q in seqs):
@@ -1622,10 +1736,12 @@ class Interp:
                 r = self.sort_seq(seq, kwargs, node)
                 if r is not None:
                     return ListObj(r)
+        if name == "bool" and len(args) == 1 and not isinstance(args[0], Const):
+            return Const(bool(self.truth(args[0], node)))
         if name in ("float", "abs", "bool") and len(args) == 1 and isinstance(args[0], Const):
             return Const({"float": float, "abs": abs, "bool": bool}[name](args[0].v))
         if name == "len" and len(args) == 1:
-            if isinstance(args[0], SetObj):
+            if isinstance(args[0], (SetObj, FrozenV)):
                 return Const(len(args[0].items))
             if isinstance(args[0], (ListObj, TupleV)):
                 r = self.w.list_len(self, args[0], node)
@@ -1775,8 +1891,27 @@ class Interp:
         finally:
             self.depth -= 1
 
-    def apply_value(self, f, args, node):
+    def apply_value(self, f, args, node, kwargs=None):
         """Call an abstract callable on already evaluated arguments."""
+        if isinstance(f, PartialV):
+            kw = dict(f.kwargs)
+            kw.update(kwargs or {})
+            return self.apply_value(f.f, list(f.args) + list(args), node, kwargs=kw)
+        if kwargs:
+            if isinstance(f, PyFunc):
+                env = _bind(f.fn, list(args), dict(kwargs), self, node)
+                self.depth += 1
+                try:
+                    return self.call_function(f.fn, env)
+                finally:
+                    self.depth -= 1
+            if isinstance(f, BoundMethod):
+                return self.call_method(f, list(args), dict(kwargs), node)
+            if isinstance(f, LocalFuncV):
+                return self.call_local(f, list(args), dict(kwargs), node)
+            if isinstance(f, (LambdaV, Builtin, TypeV, ItemGetterV, OperatorV, MethodCallerV)):
+                raise Unsupported(node, "keyword arguments for %r" % (f,))
+            return self.w.call(self, f, list(args), dict(kwargs), node)
         if isinstance(f, Opaque) and f.tag.startswith("module:operator.") and f.tag[16:] in (set(OperatorV.BIN) | set(OperatorV.CMP)):
             f = OperatorV(f.tag[16:])
         if isinstance(f, LocalFuncV):
@@ -1816,6 +1951,9 @@ class Interp:
             raise Unsupported(node, "itemgetter")
         if isinstance(f, ItemGetterV):
             outs = [self.load_subscript(args[0], Const(i), node) for i in f.idx]
+            return outs[0] if len(outs) == 1 else TupleV(outs)
+        if isinstance(f, AttrGetterV) and len(args) == 1:
+            outs = [self.load_attr(args[0], a, node) for a in f.names]
             return outs[0] if len(outs) == 1 else TupleV(outs)
         if isinstance(f, MethodCallerV) and len(args) == 1:
             m = self.load_attr(args[0], f.name, node)
@@ -2018,7 +2156,52 @@ class Interp:
                 v = _from_py(r)
                 if v is not None:
                     return v
+        if isinstance(obj, SelfV) and kwargs:
+            # a method of the analysed class called with keywords (directly or through functools.partial): hand the world the
+            # same call in positional form, so that its model of the method does not depend on how the arguments were spelt
+            fn = (getattr(self.w, "methods", None) or {}).get(name)
+            if fn is not None and not fn.args.vararg and not fn.args.kwarg and not fn.args.kwonlyargs and not fn.args.posonlyargs:
+                params = [a.arg for a in fn.args.args][1:]
+                if all(k in params[len(args):] for k in kwargs):
+                    defaults = dict(zip(params[len(params) - len(fn.args.defaults):], fn.args.defaults))
+                    last = max(params.index(k) for k in kwargs)
+                    full, ok = list(args), True
+                    for p_ in params[len(args):last + 1]:
+                        if p_ in kwargs:
+                            full.append(kwargs[p_])
+                        elif p_ in defaults and isinstance(defaults[p_], ast.Constant):
+                            full.append(Const(defaults[p_].value))
+                        else:
+                            ok = False
+                            break
+                    if ok:
+                        args, kwargs = full, {}
         return self.w.call_method(self, obj, name, args, kwargs, node)
+
+    def _peek_ctx(self, e, env):
+        """value of a context expression when it is (a conditional between) contextlib.closing(..) / nullcontext(..), else None;
+        evaluated once and remembered on the node"""
+        key = ("ctx", id(e), id(env))
+        cache = self.__dict__.setdefault("_ctx_cache", {})
+        if key in cache:
+            return cache[key]
+        val = None
+        probe = e
+        if isinstance(e, ast.IfExp):
+            probe = e.body if self.truth(self.eval(e.test, env), e.test) else e.orelse
+        if isinstance(probe, ast.Call) and not probe.keywords:
+            f = probe.func
+            dotted = None
+            if isinstance(f, ast.Attribute) and isinstance(f.value, ast.Name) and IMPORTED_NAMES.get(f.value.id) == "contextlib":
+                dotted = "contextlib." + f.attr
+            elif isinstance(f, ast.Name):
+                dotted = IMPORTED_NAMES.get(f.id)
+            if dotted == "contextlib.closing" and len(probe.args) == 1:
+                val = ClosingV(self.eval(probe.args[0], env))
+            elif dotted == "contextlib.nullcontext" and len(probe.args) <= 1:
+                val = NullCtxV(self.eval(probe.args[0], env) if probe.args else NONE)
+        cache[key] = val
+        return val
 
     def _suppressed(self, e):
         """exception names of a ``contextlib.suppress(..)`` / ``suppress(..)`` expression, else None"""
@@ -2048,9 +2231,9 @@ class Interp:
 
 def _bind(fn, pos, kwargs, ip, node):
     a = fn.args
-    if a.kwonlyargs or a.posonlyargs:
-        raise Unsupported(node, "callee signature of %s" % fn.name)
-    names = [x.arg for x in a.args]
+    names = [x.arg for x in a.posonlyargs + a.args]
+    kwonly = [x.arg for x in a.kwonlyargs]
+    posonly = {x.arg for x in a.posonlyargs}
     env = {}
     pos = list(pos)
     if len(pos) > len(names):
@@ -2065,9 +2248,9 @@ def _bind(fn, pos, kwargs, ip, node):
         env[n] = v
     extra = {}
     for k, v in kwargs.items():
-        if k in names and k not in env:
+        if ((k in names and k not in posonly) or k in kwonly) and k not in env:
             env[k] = v
-        elif a.kwarg and k not in names:
+        elif a.kwarg and k not in names and k not in kwonly:
             extra[Const(k)] = v
         else:
             raise AbstractRaise("TypeError", node, detail="bad keyword %s for %s" % (k, fn.name))
@@ -2076,7 +2259,10 @@ def _bind(fn, pos, kwargs, ip, node):
     for n, d in zip(names[len(names) - len(a.defaults):], a.defaults):
         if n not in env:
             env[n] = ip.eval(d, {})
-    for n in names:
+    for n, d in zip(kwonly, a.kw_defaults):
+        if n not in env and d is not None:
+            env[n] = ip.eval(d, {})
+    for n in names + kwonly:
         if n not in env:
             raise AbstractRaise("TypeError", node, detail="missing argument %s of %s" % (n, fn.name))
     return env
